@@ -57,6 +57,17 @@ func wgIdent(recv ssa.Value) string {
 				return ""
 			}
 			v = b
+		case *ssa.Parameter:
+			// a WaitGroup handed to a single-use private helper: continue with the argument
+			pr := ir.ProgOf(x.Parent())
+			if pr == nil {
+				return ""
+			}
+			w := pr.Canon(x)
+			if w == ssa.Value(x) {
+				return ""
+			}
+			v = w
 		case *ssa.UnOp:
 			if x.Op != token.MUL {
 				return ""
